@@ -51,6 +51,20 @@ Theorem C02_enumerate_indices :
     indexed sacc k -> indexed items (length items).
 Proof. exact enumerate_indices. Qed.
 
+(* into_iter(): the inner parser runs once; the finisher sees exactly the items of its output, in order (none in any
+   mode is skipped), the position is the inner parser's end position; a failing inner parser fails the iteration *)
+Theorem C02_into_iter_items :
+  forall toks spn run a ctx fuel p r v p1 e1 r1, length (val_items v) < fuel ->
+    run a ctx p r = Some (Some (v, p1, e1), r1) ->
+    exists items, sdrive toks spn run fuel (IIntoIter a) ctx (SInto None) None [] [] p r = Some (Some (items, true, p1, e1), r1)
+      /\ map (fun it => fst (fst it)) (rev items) = val_items v.
+Proof. exact into_iter_spec. Qed.
+
+Theorem C02_into_iter_fails_with_its_parser :
+  forall toks spn run a ctx fuel p r r1, run a ctx p r = Some (None, r1) ->
+    sdrive toks spn run (S fuel) (IIntoIter a) ctx (SInto None) None [] [] p r = Some (None, r1).
+Proof. exact into_iter_fail. Qed.
+
 (* non-vacuity, and what collect / count / foldl / foldr / collect_exactly see *)
 Example C02_example :
   let toks := [97; 44; 97; 44; 98]%N in
@@ -65,7 +79,10 @@ Example C02_example :
      = TRes (Some (Some (VTag 7 (VPair (VTok 97%N) (VTag 7 (VPair (VTok 97%N) (VTag 7 (VPair (VTok 98%N) VUnit)))))))) []
   /\ run (CollectExactly 3 it) = TRes (Some (Some (VList [VTok 97; VTok 97; VTok 98]%N))) []
   /\ run (Collect CVec (IEnum it))
-     = TRes (Some (Some (VList [VPair (VNat 0) (VTok 97%N); VPair (VNat 1) (VTok 97%N); VPair (VNat 2) (VTok 98%N)]))) [].
+     = TRes (Some (Some (VList [VPair (VNat 0) (VTok 97%N); VPair (VNat 1) (VTok 97%N); VPair (VNat 2) (VTok 98%N)]))) []
+  /\ run (Collect CVec (IEnum (IIntoIter (Collect CVec it))))
+     = TRes (Some (Some (VList [VPair (VNat 0) (VTok 97%N); VPair (VNat 1) (VTok 97%N); VPair (VNat 2) (VTok 98%N)]))) []
+  /\ run_top no_quirks KRich toks (fun a b => (a, b)) 20 Check (CollectExactly 3 (IIntoIter (Collect CVec it))) = TRes (Some None) [].
 Proof. repeat split; vm_compute; reflexivity. Qed.
 
 (* at_least > at_most: the code (and hence the model) accepts at_most items: known finding F13 *)
@@ -80,3 +97,5 @@ Print Assumptions C02_separated_by_bounded.
 Print Assumptions C02_configure_is_static.
 Print Assumptions C02_configured_bounds.
 Print Assumptions C02_enumerate_indices.
+Print Assumptions C02_into_iter_items.
+Print Assumptions C02_into_iter_fails_with_its_parser.
